@@ -644,6 +644,16 @@ func runC17(c *run.Ctx) {
 		if i < 1 {
 			c.Sample(map[string]interface{}{"sdl": clip(sdl, 1200)})
 		}
+		// ordinary application requests first (arguments of input types with fields left to their defaults, literal and
+		// through variables): answering them must leave the schema exactly as it was loaded
+		for _, bk := range []string{"iface", "any"} {
+			for k := 0; k < 3; k++ {
+				dc := gen.Doc(r, ms, gen.DocOpts{Vars: k%2 == 0, Aliases: true, Depth: 2, MaxSels: 4, MaxOps: 1})
+				text := dc.Doc.Print(model.LayoutN(k))
+				run.Protect(func() { _ = roots[bk].ResolveString(text, dc.OpName, copyVars(dc.Vars)) })
+				c.Count("application_requests_before_introspection", 1)
+			}
+		}
 		rep := func(kind, diag string, extra map[string]interface{}) {
 			m := map[string]interface{}{"sdl": sdl, "diag": diag}
 			for k, v := range extra {
